@@ -47,10 +47,10 @@ var recSpace = ev.New("C18", "config-space",
 		"accepted => effective values equal the documented ones and all representations (omit/null/empty/default, legacy vs listeners, Migrate round trip) observe "+
 		"the same; a sample of accepted configs is started on loopback in a child process and driven by TCP/UDP/API smoke traffic. Non-trivial: accepted and "+
 		"exercised by traffic, or refused with exactly one injected violation. Distinct key: configuration class (+ injected violation).").
-	Require("accepted-exercised", "refused-one-violation", "viol:key-length", "viol:nat-timeout", "viol:mtu", "viol:dangling", "viol:duplicate", "viol:range",
+	Require("accepted-exercised", "refused-one-violation", "viol:key-length", "viol:nat-timeout", "viol:mtu", "viol:dangling", "viol:duplicate", "viol:range", "viol:missing-resolver",
 		"legacy-form", "sibling:legacy-flip", "sibling:migrate", "sibling:omit", "sibling:empty", "sibling:default",
 		"probe:tcp-tunnel", "probe:udp-tunnel", "probe:reject", "udp-nontarget-reply-delivered", "chain", "domain-target",
-		"probe-silent:target-speaks-first", "probe-silent:late-payload", "half-enabled-client", "half-enabled-client-routed")
+		"probe-silent:target-speaks-first", "probe-silent:late-payload", "probe:scan-close", "probe:scan-byte", "reject-outcome:fallback-echo", "half-enabled-client", "half-enabled-client-routed")
 
 func TestConfigSpace(t *testing.T) {
 	startPct := envInt("VERIF_C18_START_PCT", 40)
